@@ -3,4 +3,5 @@ EXTENDS BatchLPSim
 MCEmitters == @EMITTERS@
 MCFlushers == @FLUSHERS@
 MCStoppers == @STOPPERS@
+MCCancels == @CANCELS@
 =============================================================================
